@@ -501,6 +501,7 @@ var coreAxioms = []axiom{
 	{"b.sub", "(assert (forall ((s Bytes) (i Int) (j Int) (k Int)) (! (=> (and (<= 0 i) (<= i j) (<= j (b.len s)) (<= 0 k) (< k (- j i))) (= (b.at (b.sub s i j) k) (b.at s (+ i k)))) :pattern ((b.at (b.sub s i j) k)))))"},
 	{"b.sub", "(assert (forall ((s Bytes)) (! (= (b.sub s 0 (b.len s)) s) :pattern ((b.sub s 0 (b.len s))))))"},
 	{"b.sub", "(assert (forall ((s Bytes) (i Int)) (! (= (b.sub s i i) b.empty) :pattern ((b.sub s i i)))))"},
+	{"b.sub", "(assert (forall ((m (Array Int Int)) (o Int) (n Int) (i Int) (j Int)) (! (=> (and (<= 0 i) (<= i j) (<= j n)) (= (b.sub (b.of m o n) i j) (b.of m (+ o i) (- j i)))) :pattern ((b.sub (b.of m o n) i j)))))"},
 	{"wraps", "(assert (forall ((e Iface)) (! (wraps e e) :pattern ((wraps e e)))))"},
 	{"wraps", "(assert (forall ((e Iface)) (! (= (wraps (mk-iface 0 0) e) (= e (mk-iface 0 0))) :pattern ((wraps (mk-iface 0 0) e)))))"},
 }
